@@ -617,6 +617,21 @@ func (c *Ctx) LayoutOf(v ssa.Value, at ssa.Instruction, d int) ([]seg, *layoutEr
 			return c.builderLayout(x.Call.Args[0], x)
 		case name == "bytes.Clone" || name == "slices.Clone[[]byte]":
 			return c.LayoutOf(x.Call.Args[0], x, d+1)
+		case strings.HasPrefix(name, "(encoding/binary.bigEndian).AppendUint"):
+			w := map[string]int{"16": 2, "32": 4, "64": 8}[strings.TrimPrefix(name, "(encoding/binary.bigEndian).AppendUint")]
+			if w > 0 && len(x.Call.Args) == 3 {
+				a, err := c.LayoutOf(x.Call.Args[1], x, d+1)
+				if err != nil {
+					return nil, err
+				}
+				cs := bytesOf(x.Call.Args[2], w, 0)
+				for i := range cs {
+					if !cs[i].set {
+						cs[i] = cell{src: "0x00", set: true}
+					}
+				}
+				return append(append([]seg{}, a...), cellsToSegs(cs)...), nil
+			}
 		}
 		if l, err, ok := c.helperLayout(x, 0, at, d); ok {
 			return l, err
